@@ -29,6 +29,7 @@ def check(ctx, tier):
     iteration(ctx, tk)
     list_constructor(ctx, tk)
     dtype_flow(ctx, tk)
+    index_sum_dtype(ctx, tk)
     save_load(ctx, tk)
     layout.prefix_sum_rules(ctx, tk, "C01.b")
     layout.code_layout_rules(ctx, tk, "C01.b")
@@ -273,6 +274,28 @@ def dtype_flow(ctx, tk):
             ctx.decide("C01.f", f, what, True if ok else False, "`%s` drops the requested dtype" % (c,), node=c.node, key="delegation", engine="E4")
         if not n:
             ctx.unknown("C01.f", f, what, "no conversion of the data parameter recognised", engine="E4")
+
+
+def index_sum_dtype(ctx, tk):
+    """(row, column) -> flat position adds a caller-supplied column to int64 row starts.  KB: int64 + uint64 has no
+    common integer type (float64); the caller's column indices are therefore brought to the index dtype first"""
+    f = ctx.func("raggedshape.ViewBase.ravel_multi_index")
+    fa = ctx.fa(f)
+    ip = f.params[1]
+    for r in fa.cfg.returns():
+        tm = fa.term(r.ast.value, r)
+        if not (tm.k == "bin" and tm.a[0] == "+"):
+            ctx.unknown("C01.b", f, "flat position = row start + column", node=r.ast, key="ravel-sum", engine="KB")
+            continue
+        col = [o for o in (tm.a[1], tm.a[2]) if any(x.k == "param" and x.a[0] == ip for x in walk(o)) and not any(x.k == "attr" and x.a[1] == "starts" for x in walk(o))]
+        if not col:
+            ctx.unknown("C01.b", f, "flat position = row start + column", node=r.ast, key="ravel-sum", engine="KB")
+            continue
+        c = col[0]
+        cast = any((np_call_(x, {"asanyarray", "asarray", "array"}) and "dtype" in dict(x.a[2])) or (x.k == "call" and x.a[0].k == "attr" and x.a[0].a[1] == "astype") for x in walk(c))
+        ctx.decide("C01.b", f, "column indices are converted to the index dtype before they are added to the row starts", True if cast else False,
+                   "`%s` adds the caller's column indices as they are: unsigned 64-bit indices (np.uintp, uint64) make the sum float64, which cannot index the flat buffer" % (tm,),
+                   node=r.ast, key="ravel-sum", engine="KB")
 
 
 def save_load(ctx, tk):
